@@ -126,7 +126,11 @@ func report(eng *Engine, o runOpts, results []*FuncResult, all []*Obligation, tL
 			violations++
 			path := filepath.Join(replayDir, sanitize(ob.Name)+".json")
 			confirmed := false
-			if !o.noReplay {
+			if ob.Kind == "enum" {
+				// the enumeration ran on the real code: its failing inputs are in the output
+				confirmed = ob.Status == "violated"
+				writeReplayFile(o, ob, path, "ENUMERATION-ON-REAL-CODE", ob.Output)
+			} else if !o.noReplay {
 				confirmed = replayObligation(eng, o, ob, path, work)
 			} else {
 				writeReplayFile(o, ob, path, "not-run", "")
